@@ -238,6 +238,11 @@ def gen_optimize(L):
         opaque = True
     else:
         raise TranslateError("sub_args / children_optimizer: treatment of a pair in head position changed shape")
+    vb = fn_body(src, "var_change_optimizer_cons_eval")
+    vskip = re.search(r"if\s+let\s+SExp::Pair\s*\(\s*call_head\s*,\s*_\s*\)\s*=\s*allocator\s*\.\s*sexp\s*\(\s*\*original_call\s*\)\s*\{\s*if\s+let\s+SExp::Pair\s*\(\s*_\s*,\s*_\s*\)\s*=\s*allocator\s*\.\s*sexp\s*\(\s*call_head\s*\)\s*\{\s*return\s+Ok\s*\(\s*r\s*\)\s*;", vb)
+    if vskip and not (vskip.start() < vb.index("sub_args(")):
+        raise TranslateError("var_change_optimizer_cons_eval: the pair-head guard moved after sub_args")
+    L.append("Definition OPT_VAR_CHANGE_SKIPS_PAIR_HEAD : bool := %s." % ("true" if vskip else "false"))
     L.append("(* stage_2/optimize.rs: are ((X) . operands) forms left alone by sub_args and children_optimizer *)")
     L.append("Definition OPT_PAIR_HEAD_OPAQUE : bool := %s." % ("true" if opaque else "false"))
     L.append("(* stage_2/optimize.rs: how path atoms are read *)")
